@@ -77,7 +77,7 @@ Definition run_sym (F : sym_facts) (m : smodel) (point : list (name * Q)) : sym_
   end.
 
 Definition run_closure (F : sym_facts) (m : smodel) (t : Q) (x : list Q) : clo_obs :=
-  match call_closure F m (init_jac fsym_lib D F m) t x with
+  match call_closure_at F m (init_jac fsym_lib D F m) None t x with     (* a fresh simulator: _time_shift is None *)
   | CNoJac => ObsNoJac
   | CErr e => ObsCloErr e
   | CMat rows => ObsCloMat rows
@@ -110,10 +110,25 @@ Record case := mkCase {
   k_sym : sym_obs ;                (* implementation: lambdified eqs + jacobian at the point *)
   k_clo : clo_obs ;                (* implementation: Simulator(...).integrator.jacobian(t, x) *)
   k_rates : list (name * Q) ;      (* implementation: values of every component at (t, x) (get_args) *)
-  k_rhs : list Q                   (* implementation: model(t, x) *)
+  k_rhs : list Q ;                 (* implementation: model(t, x) *)
+  k_raw : raw_stoich ;             (* the model's own stoichiometries (reaction -> compound -> factor) *)
+  k_parnames : list name ;         (* keys of cache.all_parameter_values (= all_parameter_names) *)
+  k_pv : list (name * Q)           (* cache.all_parameter_values *)
 }.
+
+(** the coefficient tables of the cache (inputs of the conversion) are what [build_tables] makes of
+    the model's own stoichiometries *)
+Definition tables_ok (c : case) : bool :=
+  let tb := build_tables fsem_lib (k_parnames c) (env_of (k_pv c)) (k_raw c) in
+  tbl_eqb Qeq_bool (fst tb) (m_stoich (k_model c)) && tbl_eqb comp_eqb (snd tb) (m_dyn (k_model c)).
+
+(** ... and the model's right-hand side from its own stoichiometries is the implementation's *)
+Definition run_raw_rhs (c : case) : list Q :=
+  map (raw_rhs fsem_lib (env_of (k_rates c)) (k_raw c)) (m_vars (k_model c)).
 
 Definition case_ok (F : sym_facts) (c : case) : bool :=
   sym_obs_eqb (run_sym F (k_model c) (k_point c)) (k_sym c)
   && clo_obs_eqb (run_closure F (k_model c) (k_time c) (k_x c)) (k_clo c)
-  && qlist_eqb (run_num_rhs (k_model c) (k_rates c)) (k_rhs c).
+  && qlist_eqb (run_num_rhs (k_model c) (k_rates c)) (k_rhs c)
+  && tables_ok c
+  && qlist_eqb (run_raw_rhs c) (k_rhs c).
